@@ -6,8 +6,8 @@
    The spike / current histories are RecordTensors: the C01 ring model (Inferno.C01.Ring) is reused
    unchanged (push = write at offset 0 + incr, peek = read 1, reset).  A tensor of shape
    (batch, *shape) is a flat row-major list; every tensor function used by the synapses is
-   element-wise, except the broadcasting torch.where of the undelayed overbound path, which is
-   modelled with torch's right-aligned broadcasting rule (it is where the code misbehaves).
+   element-wise, except expand / the broadcasting torch.where of the undelayed path, which are
+   modelled with torch's right-aligned broadcasting rule.
 
    Booleans stored in a bool tensor are the numbers 0 / 1 (b2t); `.bool()` is (x != 0);
    `.to(dtype=float)` of a bool tensor is the identity on that encoding.
@@ -222,6 +222,13 @@ Fixpoint src_rev (o s : list nat) (i stride : nat) : nat :=
   end.
 Definition bsrc (o s : list nat) (i : nat) : nat := src_rev (rev o) (rev s) i 1.
 
+(* tensor.expand(tgt) of a tensor of shape src with the same number of dimensions: every dimension
+   must agree or be 1 in the source *)
+Definition expand_to (src tgt : list nat) (vals : list A) : sres (list nat * list A) :=
+  if (length src =? length tgt) && forallb (fun p => (fst p =? snd p) || (fst p =? 1)) (combine src tgt)
+  then SOk (tgt, map (fun i => nth (bsrc tgt src i) vals (zero NM)) (seq 0 (nel tgt)))
+  else SErr ERuntime.
+
 (* torch.where(cond, res, scalar) with cond of shape csh and res of shape rsh *)
 Definition where_bc (csh : list nat) (cond : list bool) (rsh : list nat) (res : list A) (o : A)
   : sres (list nat * list A) :=
@@ -246,10 +253,16 @@ Definition clamp_sel (dur t : A) : A := tmin NM (tmax NM t (zero NM)) dur.   (* 
 Definition param_at (n : nat) (sh : list nat) (peekv : list A) (selv : nat -> A -> A)
            (dt dur tol : A) (ob : option A) (ssh : list nat) (sel : list A) : sres (list nat * list A) :=
   if n =? 1 then
-    (* undelayed access: bounded_selector = 0, res = transform(value.peek()) *)
-    match ob with
-    | None => SOk (sh, peekv)
-    | Some o => where_bc ssh (map (fun t => leb NM (abs NM (sub NM t (zero NM))) tol) sel) sh peekv o
+    (* undelayed access: bounded_selector = 0, res = transform(value.peek());
+       if selector.ndim == res.ndim + 1: res = res.unsqueeze(-1).expand(selector.shape) *)
+    let res := if length ssh =? S (length sh) then expand_to (sh ++ [1]) ssh peekv else SOk (sh, peekv) in
+    match res with
+    | SErr e => SErr e
+    | SOk (rsh, rv) =>
+        match ob with
+        | None => SOk (rsh, rv)
+        | Some o => where_bc ssh (map (fun t => leb NM (abs NM (sub NM t (zero NM))) tol) sel) rsh rv o
+        end
     end
   else
     let squeeze := length ssh =? length sh in
